@@ -15,7 +15,41 @@ import (
 	"time"
 )
 
+// Paranoid makes every scheduling point verify (via the goroutine id) that the caller really is
+// the baton holder; a foreign goroutine (an un-parked daemon) touching a shim is a harness error.
+var Paranoid = false
+
+//go:norace
+func goid() int64 {
+	var buf [64]byte
+	n := runtime.Stack(buf[:], false)
+	// "goroutine 123 ["
+	var id int64
+	for _, c := range buf[10:n] {
+		if c < '0' || c > '9' {
+			break
+		}
+		id = id*10 + int64(c-'0')
+	}
+	return id
+}
+
+//go:norace
+func (s *sched) verify(where string) {
+	if !Paranoid {
+		return
+	}
+	t := s.threads[s.baton]
+	if g := goid(); t.goid != g {
+		buf := make([]byte, 1<<16)
+		n := runtime.Stack(buf, false)
+		fmt.Printf("HARNESS-ERROR: vsched: goroutine %d reached scheduling point %s but the baton holder is thread %s (goroutine %d): an unscheduled goroutine is touching instrumented code\n%s\n", g, where, t.name, t.goid, buf[:n])
+		exit(2)
+	}
+}
+
 type thread struct {
+	goid     int64
 	id       int
 	name     string
 	finished bool
@@ -159,6 +193,7 @@ func Point(label string) {
 	if s == nil || !s.active || s.baton < 0 {
 		return
 	}
+	s.verify(label)
 	me := s.baton
 	next := s.choose(me, label)
 	if next != me {
@@ -179,6 +214,7 @@ func BlockUntil(label string, can func() bool) {
 	if can() {
 		return
 	}
+	s.verify(label)
 	me := s.baton
 	t := s.threads[me]
 	t.blocked = can
@@ -210,6 +246,45 @@ func (s *sched) deadlock() {
 // Yield is an explicit scheduling point for drivers.
 func Yield() { Point("yield") }
 
+// SpawnPolicy decides what a rewritten `go` statement of the code under test becomes, keyed by a
+// prefix of its label "file.go:line": "thread" (scheduled), "daemon" (plain goroutine; must stay parked
+// while an exploration is active), "forbid" (harness error). Default: daemon when spawned during
+// set-up (constructors, Start methods), thread when spawned by a running thread.
+var SpawnPolicy = map[string]string{}
+
+// GoStmt is what the overlay turns `go f(x)` into.
+//
+//go:norace
+func GoStmt(label string, fn func()) {
+	s := cur
+	if s == nil {
+		go fn()
+		return
+	}
+	mode := ""
+	for k, v := range SpawnPolicy {
+		if len(label) >= len(k) && label[:len(k)] == k {
+			mode = v
+		}
+	}
+	if mode == "" {
+		if s.active && s.baton >= 0 {
+			mode = "thread"
+		} else {
+			mode = "daemon"
+		}
+	}
+	switch mode {
+	case "thread":
+		Go(label, fn)
+	case "daemon":
+		go fn()
+	default:
+		fmt.Printf("HARNESS-ERROR: vsched: go statement %s is forbidden by the spawn policy\n", label)
+		exit(2)
+	}
+}
+
 // Go spawns fn as a scheduled thread when an exploration is active (callable from setup code before
 // Start, or from a running thread); otherwise it is a plain goroutine.
 //
@@ -234,6 +309,9 @@ func (s *sched) runThread(t *thread) {
 	defer s.realWG.Done()
 	s.wait(t.id)
 	t.started = true
+	if Paranoid {
+		t.goid = goid()
+	}
 	defer s.threadExit(t)
 	t.fn()
 }
